@@ -46,7 +46,7 @@ PROPS = {
     check_targets=["Check/CheckReidx2.vo", "Check/CheckLow.vo"], proof_targets=["Props/C05.vo"],
     theorems=[("C05", "C05_second_resolution_is_identity"), ("C05", "C05_first_resolution_clears_every_special_list"), ("C05", "C05_second_resolution_is_identity_after_the_first"),
               ("C05", "C05_settled_second_encode_same"), ("C05", "C05_unflagged_history_second_encode_same"), ("C05", "C05_parsed_module_second_encode_same"),
-              ("C05", "C05_checker_sound_index_side"), ("C05", "C05_known_D01_is_exact"), ("C05", "C05_partial_identity_maps_leave_references")],
+              ("C05", "C05_checker_sound_index_side"), ("C05", "C05_known_D01_is_exact"), ("C05", "C05_second_encoding_is_the_models"), ("C05", "C05_partial_identity_maps_leave_references")],
     quick=dict(n=2400), thorough=dict(n=40000),
     rule="edit histories of the re-indexing engine and instrumentation plans of the lowering engine (all modes, function entry/exit, all API paths), each followed by two consecutive encode() calls "
          "whose bytes are compared; non-trivial = history or plan non-empty",
@@ -56,7 +56,7 @@ PROPS = {
                "initialisers / data offsets and mapped again); Coq proof that whenever no vector is reorganised and every id map is the identity the second encoding IS the first (every state, every reference set), "
                "that every state reached from any parsed module by any history that flags no index space is such a state (so the unmodified module and add_global / add_export / add_data histories encode twice to the "
                "same module), and that the known class D01 is exactly 'the model predicts a difference': on agreeing cases the two real encodings were equal outside the class and different inside it. The model's "
-               "prediction for the second encode is part of the correspondence on every sampled history. Known class D01 (id maps re-applied to already rewritten references): the property is false of the code there.",
+               "prediction for the second encode -- the decoded CONTENT of the second real encoding, not only 'same / different' -- is part of the correspondence on every sampled history. Known class D01 (id maps re-applied to already rewritten references): the property is false of the code there.",
     level_note=NOTE, trusted_base=TB,
     technique="Coq proofs (idempotence of the resolution pass; model of the second encode: settled states encode twice to the same module, unflagged histories are settled, the known class is exact) + "
               "in-Coq differential correspondence of the model's second-encode prediction with the byte comparison of two real encodings",
